@@ -237,9 +237,9 @@ ASSUMPTIONS = [
     "E3s: &str / String carried as the byte-sequence model `Str` (units/prelude/str_model.rs): starts_with, replace, split_once, ==/match on literals, to_string, format!(\"{}.\") have std's documented behaviour as trusted specs; the bytes of a literal are an abstract function of the literal",
     "toml::Value re-declared with the variants inspected (String / Boolean / other) and toml's documented accessors; toml_value_from_str abstract",
     "E3: HashMap<String, Value> carried as an abstract map; HashMap::iter() as the Vec of its entries in an unspecified fixed order (each key once)",
-    "SharedConfig::overrides_shared (split/skip/collect iterator adapters) abstract: ov_shared; KotlinConfig / DemoConfig / JsConfig::set abstract",
+    "SharedConfig::overrides_shared and KotlinConfig / DemoConfig / JsConfig::set are abstract here (ov_shared, kotlin_set, demo_set, js_set); their bodies are unit config_lang_sets",
     "axiom_replace_prefix: str::replace removes a leading occurrence and nothing else when the remainder does not contain the pattern (std: non-overlapping matches left to right); used only by the corollary lemma_scoped_lib_name_wins",
     "precondition shared_ok: a value of the wrong toml type for lib_name / unsafe_references_in_callbacks is a user error (panic with message by design)",
 ]
 UNVERIFIED = {"C17": ["Config::read_file (fs, toml, heck::AsSnakeCase: kebab-case == snake_case is NOT decided)", "find_top_level_attr / the syn parsers of #[diplomat::config]",
-                      "SharedConfig::overrides_shared's body", "the order main() / gen() apply the sources in (unit config_order if present, else read)"]}
+                      "that config_routing's abstract ov_shared / kotlin_set / demo_set / js_set are the functions proved in unit config_lang_sets (same names, linked by reading)"]}
